@@ -138,6 +138,9 @@ class DrapeModel(GridObject):
 
     @property
     def n_cells(self):
+        if self._layers is None and self.on_file:
+            _ = self.layers  # load from file
+
         if self._layers is not None:
             return self._layers.shape[0]
         return None
